@@ -174,6 +174,21 @@ static void check_hash(World &w, const SS &text, unsigned h) {
 	else if(it->second != h) vh::oracle("hash", "equal texts hash differently (%u vs %u)", it->second, h);
 }
 
+// after std::move(strs[k]): whatever a (future) move operation leaves behind, the source must satisfy the terminator
+// invariant: it owns size()+1 elements ending in 0, or owns no buffer and has size() == 0 -- never "size() > 0 with
+// data() == nullptr".  Its reference text becomes what it now holds (std: valid but unspecified).
+static void check_moved_from(World &w, size_t k, const char *what) {
+	FS &s = *w.strs[k];
+	if(!s.data()) {
+		if(s.size()) vh::oracle("terminator", "%s: moved-from string reports size() = %zu with data() == nullptr", what, s.size());
+		*w.ref[k] = SS();
+		return;
+	}
+	if(s.data()[s.size()] != 0) vh::oracle("terminator", "%s: moved-from string: data()[size()] is not 0", what);
+	w.ref[k]->assign(s.data(), s.size());
+}
+static size_t take_by_value(FS p) { return p.size() + (p.data() ? (size_t)(p.data()[p.size()] != 0) : 0); }
+
 static void new_str(World &w, FS *s, SS r, const char *what) {
 	w.strs.emplace_back(s); w.ref.emplace_back(std::move(r));
 	printf("u\n");
@@ -371,6 +386,32 @@ static void run_lines(const vh::Lines &ls) {
 				swap(*w.strs.at(a), *w.strs.at(b));
 				std::swap(*w.ref[a], *w.ref[b]);
 				printf("u\n"); print_str(w, a); print_str(w, b); check_str(w, a, "swap"); check_str(w, b, "swap");
+			} else if(o == "smove") {                    // basic_string t(std::move(s)); then keep using s
+				size_t k = vh::u64(t[1]);
+				SS text = *w.ref.at(k);
+				FS *nt = new FS(std::move(*w.strs.at(k)));
+				w.strs.emplace_back(nt); w.ref.emplace_back(text);
+				check_moved_from(w, k, "move construction");
+				print_str(w, k); print_str(w, w.strs.size() - 1);
+				check_str(w, w.strs.size() - 1, "move construction (destination)");
+			} else if(o == "smovea") {                   // t = std::move(s)
+				size_t d = vh::u64(t[1]), sidx = vh::u64(t[2]);
+				SS text = *w.ref.at(sidx);
+				*w.strs.at(d) = std::move(*w.strs.at(sidx));
+				*w.ref[d] = text;
+				if(d != sidx) check_moved_from(w, sidx, "move assignment");
+				print_str(w, sidx); print_str(w, d);
+				check_str(w, d, "move assignment (destination)");
+			} else if(o == "sbyval" || o == "sbyvalm") {  // f(s) / f(std::move(s)) with f(basic_string p)
+				size_t k = vh::u64(t[1]);
+				size_t want = w.ref.at(k)->size();
+				size_t r = o == "sbyval" ? take_by_value(*w.strs.at(k)) : take_by_value(std::move(*w.strs.at(k)));
+				printf("n %zu\n", r);
+				if(r != want) vh::oracle("refstr", "by-value parameter has size() = %zu (or lost its terminator), reference %zu", r, want);
+				if(o == "sbyvalm") check_moved_from(w, k, "pass by value of std::move"); else check_str(w, k, "pass by value (argument)");
+			} else if(o == "traits") {
+				printf("traits %d %d %d\n", (int)std::is_nothrow_move_constructible_v<FS>, (int)std::is_trivially_move_constructible_v<FS>,
+					(int)std::is_nothrow_move_assignable_v<FS>);
 			} else if(o == "sdel") {
 				size_t k = vh::u64(t[1]);
 				w.strs.at(k).reset();                  // ~basic_string
